@@ -98,7 +98,8 @@ def classify(lines, idx, verdict):
     line = lines[idx]
     t = line.split()
     oblig = verdict.split()[0] if verdict else "?"
-    tags = [oblig, "T_" + tname.split("_", 1)[1]]
+    tshort = tname.split("_", 1)[1]
+    tags = [oblig, "T_" + tshort, "T_" + type_class(tshort)]
     # the operation a `res`/`exc`/`crash` line belongs to
     op = None
     for l in reversed(lines[:idx + 1]):
@@ -113,7 +114,9 @@ def classify(lines, idx, verdict):
             for m in reversed(lines[:lines.index(l)]):
                 if m.startswith("op ") or m.startswith("new "):
                     origin = m.split(); break
-            tainted.setdefault(u[3], (origin[2] if origin and origin[0] == "op" else "new") if origin else "?")
+            oname = (origin[2] if origin and origin[0] == "op" else "new") if origin else "?"
+            if origin and origin[0] == "op" and dim_of_slot(lines, lines.index(l), u[3]) == 0: oname += "_zero_dim"
+            tainted.setdefault(u[3], oname)
         elif u[0] == "new":
             tainted.pop(u[1], None)
         elif u[0] == "copy":
@@ -126,9 +129,26 @@ def classify(lines, idx, verdict):
                 else: tainted[s] = v
     site = "?"
     if t[0] == "crash":
-        name = op[2] if op and op[0] == "op" else ("new:" + op[3] if op else "?")
-        site = "%s::%s" % (cls, METHOD.get(name, name))
         tags.append("crash_" + "_".join(t[1:]))
+        if op is not None and op[0] == "op":
+            name = op[2]
+            site = "%s::%s" % (cls, METHOD.get(name, name))
+            opi = max(i for i in range(idx + 1) if lines[i].split() == op)
+            n = dim_of_slot(lines, opi, op[1])
+            tags += op_tags(name, op[3:], n, kind)
+            tags += ["recv_" + f for f in status_flags(lines, opi, op[1])]
+            rr = rows_of_slot(lines, opi, op[1])
+            if rr is not None and n >= 2 and any(r[0] != "=" and len(nonzero(r[2])) == 1 for r in rr):
+                tags.append("recv_unary_inequality_dim_ge_2")
+            if rr is not None: tags += limit_tags(rr, tname)
+            if op[1] in tainted: tags.append("operand_not_OK_after_" + tainted[op[1]])
+            # the crash may come from printing the result of the op (res lines already written)
+            if any(l.startswith("res " + op[1] + " ") for l in lines[opi:idx]): tags.append("crash_after_result_reported")
+        elif op is not None:
+            site = "%s::%s(%s)" % (cls, cls, op[3])
+            if any(l.startswith("res " + op[1] + " ") for l in lines[lines.index(" ".join(op)):idx] if " ".join(op) in lines): tags.append("crash_after_result_reported")
+        else:
+            site = cls + "::?"
     elif t[0] == "q":
         site = "%s::%s" % (cls, METHOD.get(t[2], t[2]))
         slots = [t[1]] + ([t[3]] if t[2] in ("contains", "strictly_contains", "disjoint", "equals") else [])
@@ -178,7 +198,12 @@ def classify(lines, idx, verdict):
                 if g[0] == 0 and g[4] == 1: tags.append("disjoint_not_reported")
                 if m != 0:
                     tags += ["proper_congruence_" + x for x in tags if x in ("included_reported_strictly_intersects", "reported_disjoint_but_intersects", "disjoint_not_reported")]
-    elif t[0] in ("res", "exc"):
+    elif t[0] == "note" and any(l.startswith("q " + t[3] + " ") for l in lines[max(i for i in range(idx) if lines[i].split()[0] in ("op", "new", "hist")):idx]):
+        # OK() became false during an observation phase: attribute to the last query on that slot
+        lastq = [l for l in lines[:idx] if l.startswith("q " + t[3] + " ")][-1].split()
+        site = "%s::%s" % (cls, METHOD.get(lastq[2], lastq[2]))
+        tags.append("during_observation")
+    elif t[0] in ("res", "exc", "note"):
         if op is None:
             site = cls + "::?"
         elif op[0] == "new":
@@ -190,6 +215,7 @@ def classify(lines, idx, verdict):
             if how in ("grid", "from"): tags.append("complexity_" + (op[4] if how == "grid" else op[5]))
             if how == "grid" and int(op[5]) > 1: tags.append("grid_has_direction")
             if how == "from": tags.append("source_" + op[4])
+            tags += arg_number_tags(op[4:], tname, tags)
         else:
             name = op[2]
             site = "%s::%s" % (cls, METHOD.get(name, name))
@@ -206,7 +232,16 @@ def classify(lines, idx, verdict):
             rr = rows_of_slot(lines, opi, op[1])
             if rr is not None:
                 if n >= 2 and any(r[0] != "=" and len(nonzero(r[2])) == 1 for r in rr): tags.append("recv_unary_inequality_dim_ge_2")
+            if rr is not None: tags += limit_tags(rr, tname)
+            if len(op) == 4:
+                r2 = rows_of_slot(lines, opi, op[3])
+                if r2 is not None and name in ("meet", "join", "join_if_exact", "diff", "concat", "time_elapse", "simplify_ctx"):
+                    tags += [x for x in limit_tags(r2, tname) if x not in tags]
+                    if name == "join_if_exact" and "ret" in tags and "library answers 0" in verdict and \
+                            any(r[0] == ">" for r in (rr or []) + r2):
+                        tags.append("exact_union_denied_open_bound_involved")
             if "lhs_ge2_vars" in tags and "recv_SPR" in tags: tags.append("lhs_ge2_vars_recv_reduced")
+            tags += arg_number_tags(op[3:], tname, tags)
         if t[0] == "res" and t[3] != "cons":
             tags.append("reading_" + t[3])
     elif t[0] in ("arg", "obs"):
@@ -220,7 +255,47 @@ def classify(lines, idx, verdict):
                 last = u[0] + ":" + (u[2] if u[0] == "op" else ""); break
         site = "%s::history(%s)" % (cls, METHOD.get(last, last))
         if t[1] in tainted: tags.append("operand_not_OK_after_" + tainted[t[1]])
+    if "bound_near_limit_of_T" in tags:
+        tags.append("%s_%s_bound_near_limit" % (cls, type_class(tshort)))
     return site, tags
+
+
+def type_class(tshort):
+    if tshort in ("mpq", "rt_r_oc"): return "rational"
+    if tshort in ("mpz", "z"): return "unbounded_int"
+    if "int" in tshort: return "native_int"
+    return "float"
+
+
+LIMITS = {"int8": 127, "int16": 32767, "int32": 2**31 - 1, "int64": 2**63 - 1, "uint8": 255, "uint16": 65535,
+          "uint32": 2**32 - 1, "uint64": 2**64 - 1, "float": 2**128, "fl_r_oc": 2**128, "double": 2**1024, "db_r_oc": 2**1024,
+          "ldouble": 2**16384, "ld_r_oc": 2**16384}
+
+
+def limit_tags(rows, tname):
+    """a bound of the receiver has magnitude >= max(T)/4"""
+    hi = LIMITS.get(tname.split("_", 1)[1])
+    if hi is None: return []
+    for rel, k, a in rows:
+        nz = nonzero(a)
+        if nz and abs(k) * 4 >= hi * abs(a[nz[0]]):
+            return ["bound_near_limit_of_T"]
+    return []
+
+
+def arg_number_tags(args, tname, tags):
+    """tags derived from the integers written in the arguments of an operation"""
+    out = []
+    ints = []
+    for a in args:
+        try: ints.append(int(a))
+        except ValueError: pass
+    hi = LIMITS.get(tname.split("_", 1)[1])
+    if hi is not None and any(abs(v) * 4 >= hi for v in ints) and "bound_near_limit_of_T" not in tags:
+        out.append("bound_near_limit_of_T")
+    if "T_native_int" in tags and any(v < 0 for v in ints):
+        out.append("native_int_negative_coefficient")
+    return out
 
 
 def status_flags(lines, upto, slot):
